@@ -1,7 +1,7 @@
 (* C09 — OVF files round-trip fields and follow the OVF 1.0/2.0 format.
    ONLY statements, each closed by [exact] of a lemma proved in proofs/, followed by
    Print Assumptions. *)
-From DF Require Import Prelude Constants_gen Region Mesh Ovf C09_layout C09_codec C09_faults C09_mesh.
+From DF Require Import Prelude Constants_gen Region Mesh Ovf C09_layout C09_codec C09_faults C09_mesh C09_roundtrip.
 Open Scope Q_scope.
 
 (* a binary file whose check value is not the one of its representation is rejected *)
@@ -182,3 +182,88 @@ Print Assumptions C09_mesh_reconstructed.
 Example C09_mesh_reconstructed_nonvacuous :
   mesh_by_cell (reg wit_mesh) [cell_of 0 2 2; cell_of 0 1 1; cell_of 0 1 1] = OK wit_mesh.
 Proof. vm_compute. reflexivity. Qed.
+
+(* ================================================================ the composed round trip *)
+(* For every well-formed 3-d field (wf_ofield: what the Region/Mesh/Field constructors establish,
+   equal mesh units, nvdim >= 1, unique labels without spaces and braces for vector fields, a unit
+   that is none or a non-empty string other than 'None' without white space, values of the right
+   size), every representation, extend_scalar on or off, side-car written and read:
+   the writer succeeds, the reader accepts what was written, and the field read back has the same
+   corners (Leibniz equal, hence ==), mesh units, cell counts, subregions (names and corners, through
+   the side-car), component count (3 for extend_scalar on a scalar field), labels (vector fields),
+   unit, and every value v comes back as rd (wr v) - wr/rd being the value maps of the representation:
+   identity for bin8 (bit-identical for every element type), float32 rounding for bin4, decimal
+   text for txt (bounded by the harness).  An extended scalar comes back as (v, 0, 0) per cell. *)
+Theorem C09_roundtrip : forall (V : Type) (d zero : V) (wr rd : repr -> V -> V)
+    (f : ofield V) (rp : repr) (extend : bool),
+  wf_ofield f ->
+  let ext := extend && (of_nvdim f =? 1)%nat in
+  exists fl sc f',
+    encode d zero wr f rp extend true = OK (fl, sc) /\
+    decode d rd fl sc = OK f' /\
+    pmin (reg (of_mesh f')) = pmin (reg (of_mesh f)) /\
+    pmax (reg (of_mesh f')) = pmax (reg (of_mesh f)) /\
+    units (reg (of_mesh f')) = units (reg (of_mesh f)) /\
+    n (of_mesh f') = n (of_mesh f) /\
+    sidecar_of (of_mesh f') = sidecar_of (of_mesh f) /\
+    of_nvdim f' = (if ext then 3%nat else of_nvdim f) /\
+    ((2 <= of_nvdim f)%nat -> of_vdims f' = of_vdims f) /\
+    of_unit f' = of_unit f /\
+    of_vals f' = map (fun v => rd rp (wr rp v))
+                     (if ext then extend_vals zero (of_vals f) else of_vals f).
+Proof. exact roundtrip. Qed.
+Print Assumptions C09_roundtrip.
+
+Example C09_roundtrip_wf_nonvacuous : wf_ofield (wit_field ["a"; "b"]%string).
+Proof. exact wit_wf. Qed.
+
+(* the writer's check value is the one the reader expects (both tables are read from io/ovf.py on
+   every run: a change of either breaks this proof) *)
+Theorem C09_check_value_accepted : forall r : repr, write_check_value r == check_value r.
+Proof. exact write_check_agrees. Qed.
+Print Assumptions C09_check_value_accepted.
+
+(* units: the guard of C09_roundtrip in isolation ... *)
+Theorem C09_unit_partial : forall (u : option string) (k : nat), unit_ok u -> (1 <= k)%nat ->
+  read_unit (Some (flat_map words (repeat (unit_token u) k))) = u.
+Proof. exact unit_roundtrip. Qed.
+Print Assumptions C09_unit_partial.
+
+Example C09_unit_partial_nonvacuous : unit_ok (Some "kg*m^2:s"%string) /\ unit_ok None.
+Proof. split; [repeat split; discriminate | exact I]. Qed.
+
+(* ... and the known finding C09-unit-whitespace: 'A / m' on two components is read back as no unit *)
+Theorem C09_unit_whitespace_refuted :
+  read_unit (Some (flat_map words (repeat (unit_token (Some "A / m"%string)) 2))) = None.
+Proof. exact unit_whitespace_lost. Qed.
+Print Assumptions C09_unit_whitespace_refuted.
+
+(* ================================================================ every cut of a binary file *)
+(* a cut inside the check value *)
+Theorem C09_faults_no_check : forall (V : Type) (d : V) (rd : repr -> V -> V)
+    (fl : ovf_file V) (side : option sidecar),
+  is_binary (f_rep fl) = true -> f_check fl = None -> is_ok (decode d rd fl side) = false.
+Proof. exact no_check_rejected. Qed.
+Print Assumptions C09_faults_no_check.
+
+(* every cut inside the data block: any prefix shorter than announced, with any (remaining) check
+   value and anything behind it, is rejected *)
+Theorem C09_faults_every_cut : forall (V : Type) (d : V) (rd : repr -> V -> V)
+    (fl : ovf_file V) (side : option sidecar) (k : nat) (chk : option Q) (tail : bool),
+  is_binary (f_rep fl) = true -> (k < announced fl)%nat ->
+  is_ok (decode d rd (damaged fl chk (firstn k (f_payload fl)) tail) side) = false.
+Proof. exact every_cut_rejected. Qed.
+Print Assumptions C09_faults_every_cut.
+
+(* every cut behind the data block (only bytes of the trailer are lost): the same field *)
+Theorem C09_faults_trailer_cut_same : forall (V : Type) (d : V) (rd : repr -> V -> V)
+    (fl : ovf_file V) (side : option sidecar) (f' : ofield V) (k : nat),
+  is_binary (f_rep fl) = true -> decode d rd fl side = OK f' -> (announced fl <= k)%nat ->
+  decode d rd (damaged fl (f_check fl) (firstn k (f_payload fl)) true) side = OK f'.
+Proof. exact cut_in_trailer_same. Qed.
+Print Assumptions C09_faults_trailer_cut_same.
+
+Example C09_faults_trailer_nonvacuous : exists fl sc f',
+  encode 0 0 idQ (wit_field ["a"; "b"]%string) RBin8 false true = OK (fl, sc) /\
+  decode 0 idQ fl sc = OK f' /\ is_binary (f_rep fl) = true /\ announced fl = 4%nat.
+Proof. exact wit_file_decodes. Qed.
